@@ -273,6 +273,20 @@ func (g *Gen) buildCase(slot int, cmd *LNode, gate, container int) *Case {
 	}
 	g.nsec++
 	ip := fmt.Sprintf("203.0.113.%d:5%04d", 1+g.nsec%250, g.nsec%10000)
+	// the forms a client address takes: IPv4 with port (most lines), bracketed IPv6 with port, IPv4-mapped IPv6, a
+	// link-local address with a zone, bare addresses without a port
+	switch g.nsec % 11 {
+	case 3:
+		ip = fmt.Sprintf("[2001:db8:%x::%x]:5%04d", 1+g.nsec%250, 7+g.nsec%9000, g.nsec%10000)
+	case 5:
+		ip = fmt.Sprintf("[::ffff:203.0.113.%d]:5%04d", 1+g.nsec%250, g.nsec%10000)
+	case 7:
+		ip = fmt.Sprintf("[fe80::%x:1%%eth0]:27017", 0x100+g.nsec%60000)
+	case 8:
+		ip = fmt.Sprintf("198.51.%d.%d", 100+g.nsec%150, 1+g.nsec%250)
+	case 9:
+		ip = fmt.Sprintf("2001:db8::%x:%x", 0x100+g.nsec%60000, 1+g.nsec%250)
+	}
 	attr.Add("remote", LS(ip).With(Label{K: LabIP, Canary: ip}))
 	g.caseNo++
 	root := LO("t", LO("$date", LS("2024-05-01T10:00:00.123+00:00")), "s", LS("I"), "c", LS(gt.c), "id", LN("51803"), "ctx", LS("conn42"), "msg", LS(gt.msg), "attr", attr)
